@@ -227,8 +227,12 @@ func runGen(name string, c Component, seed uint64, tier, out, corpus string, noG
 	st := stats{Classes: map[string]int{}}
 	distinct := map[uint64]struct{}{}
 	lineNo := 0
+	cur := filepath.Join(out, name+".cur")
 	emit := func(op string) {
 		lineNo++
+		// the op about to run, for the case that it takes the whole process down (a panic on a goroutine of the
+		// implementation, a fatal runtime error): the check reads it and re-runs it alone
+		_ = os.WriteFile(cur, []byte(name+" "+op+"\n"), 0o644)
 		res, mon, class, nontrivial := safeExec(c, op)
 		fmt.Fprintf(opsW, "%s %s\n", name, op)
 		fmt.Fprintf(implW, "%s\n", res)
@@ -278,6 +282,7 @@ func runGen(name string, c Component, seed uint64, tier, out, corpus string, noG
 	st.DistinctNontrival = len(distinct)
 	b, _ := json.MarshalIndent(st, "", " ")
 	_ = os.WriteFile(filepath.Join(out, name+".stats.json"), b, 0o644)
+	_ = os.Remove(cur)
 }
 
 func mustCreate(p string) *bufio.Writer {
